@@ -41,6 +41,92 @@ def _is_var_expr(env, node) -> bool:
     return False
 
 
+def check_scope_restore(ctx, rule, m):
+    """set / reset pairing of the context manager on all exits."""
+    cfg = m.module("config")
+    C = cfg.classes.get("_Config")
+    if C is None:
+        raise AnalysisError("class _Config not found in physt/config.py")
+    init = C.methods.get("__init__")
+    flag_names = {U(c.args[0]) for c in calls_in(init.node) if isinstance(c.func, ast.Attribute) and c.func.attr == "_make_var" and len(c.args) == 2} if init else set()
+    cv = C.methods.get("_change_value")
+    if cv is None:
+        raise AnalysisError("_Config._change_value not found")
+    ctx.saw(cv)
+    ctx.check(any(d.endswith("contextmanager") for d in cv.decorator_names()), rule, "decorator:_change_value",
+              "is a contextlib.contextmanager", "_change_value is not decorated with contextmanager", cv.where)
+    body = cv.node.body
+    body = [b for b in body if not (isinstance(b, ast.Expr) and isinstance(b.value, ast.Constant))]
+    ok = False
+    why = "no `token = <var>.set(value)` directly followed by try/finally found"
+    for i, st in enumerate(body):
+        if (isinstance(st, ast.Assign) and len(st.targets) == 1 and isinstance(st.targets[0], ast.Name)
+                and isinstance(st.value, ast.Call) and isinstance(st.value.func, ast.Attribute)
+                and st.value.func.attr == "set"):
+            tok = st.targets[0].id
+            recv = U(st.value.func.value)
+            nxt = body[i + 1] if i + 1 < len(body) else None
+            if not isinstance(nxt, ast.Try):
+                why = "the statement after `.set(...)` is not the try/finally - an exception in between leaks the value"
+                continue
+            yields_in_body = any(isinstance(n, (ast.Yield, ast.YieldFrom)) for b in nxt.body for n in ast.walk(b))
+            yields_elsewhere = any(isinstance(n, (ast.Yield, ast.YieldFrom)) for n in ast.walk(cv.node)) and not yields_in_body
+            resets = [c for b in nxt.finalbody for c in calls_in(b)
+                      if isinstance(c.func, ast.Attribute) and c.func.attr == "reset"
+                      and len(c.args) == 1 and U(c.args[0]) == tok and U(c.func.value) == recv]
+            # reset must be unconditional in the finally block
+            uncond = any(isinstance(b, ast.Expr) and any(c is b.value for c in resets) for b in nxt.finalbody)
+            handlers_swallow = False
+            if not yields_in_body or yields_elsewhere:
+                why = "the yield is not inside the try body protected by the finally"
+            elif not resets or not uncond:
+                why = f"finally does not unconditionally call {recv}.reset({tok})"
+            elif i + 2 < len(body) and any(isinstance(n, (ast.Yield, ast.YieldFrom)) for b in body[i + 2:] for n in ast.walk(b)):
+                why = "a second yield after the try"
+            else:
+                ok = True
+                why = f"{tok} = {recv}.set(..); try: yield; finally: {recv}.reset({tok})"
+    ctx.check(ok, rule, "pairing:_change_value", why, why, cv.where)
+    # all paths of _change_value that pass the set also pass the reset (path engine cross-check)
+    npaths = 0
+    allreset = True
+    for path in function_paths(cv.node):
+        seen_set = seen_reset = False
+        for step in path:
+            if step[0] == "stmt":
+                for c in calls_in(step[1]):
+                    if isinstance(c.func, ast.Attribute) and c.func.attr == "set":
+                        seen_set = True
+                    if isinstance(c.func, ast.Attribute) and c.func.attr == "reset" and seen_set:
+                        seen_reset = True
+        npaths += 1
+        if seen_set and not seen_reset:
+            allreset = False
+    ctx.check(allreset and npaths > 0, rule, "paths:_change_value", f"all {npaths} structural paths reset after set",
+              "a structural path through _change_value sets the variable and never resets it", cv.where)
+    ef = C.methods.get("enable_free_arithmetics")
+    if ef is None:
+        raise AnalysisError("_Config.enable_free_arithmetics not found")
+    ctx.saw(ef)
+    good = False
+    for st in ast.walk(ef.node):
+        if isinstance(st, ast.With):
+            for it in st.items:
+                c = it.context_expr
+                if (isinstance(c, ast.Call) and U(c.func) == "self._change_value" and len(c.args) == 2
+                        and U(c.args[0]) in flag_names
+                        and U(c.args[1]) in [p for p in ef.params()]):
+                    if any(isinstance(n, ast.Yield) for b in st.body for n in ast.walk(b)):
+                        good = True
+    outside = [n for n in ast.walk(ef.node) if isinstance(n, ast.Yield)]
+    ctx.check(good and len(outside) == 1 and any(d.endswith("contextmanager") for d in ef.decorator_names()),
+              rule, "wrapper:enable_free_arithmetics",
+              "contextmanager yielding once inside `with self._change_value(<flag>, value)`",
+              "enable_free_arithmetics does not yield exactly once inside `with self._change_value(<flag>, value)`",
+              ef.where)
+
+
+
 def run(ctx):
     m = ctx.model
     cfg = m.module("config")
@@ -198,81 +284,7 @@ def run(ctx):
     # ---- C19.b set/reset pairing ---------------------------------------------------------
     ctx.rule("C19.b", "token = var.set(v) immediately before a try whose body yields and whose finally calls "
              "var.reset(token); the public manager yields inside `with self._change_value(...)`", 4, exhaustive=True)
-    cv = C.methods.get("_change_value")
-    if cv is None:
-        raise AnalysisError("_Config._change_value not found")
-    ctx.saw(cv)
-    ctx.check(any(d.endswith("contextmanager") for d in cv.decorator_names()), "C19.b", "decorator:_change_value",
-              "is a contextlib.contextmanager", "_change_value is not decorated with contextmanager", cv.where)
-    body = cv.node.body
-    body = [b for b in body if not (isinstance(b, ast.Expr) and isinstance(b.value, ast.Constant))]
-    ok = False
-    why = "no `token = <var>.set(value)` directly followed by try/finally found"
-    for i, st in enumerate(body):
-        if (isinstance(st, ast.Assign) and len(st.targets) == 1 and isinstance(st.targets[0], ast.Name)
-                and isinstance(st.value, ast.Call) and isinstance(st.value.func, ast.Attribute)
-                and st.value.func.attr == "set"):
-            tok = st.targets[0].id
-            recv = U(st.value.func.value)
-            nxt = body[i + 1] if i + 1 < len(body) else None
-            if not isinstance(nxt, ast.Try):
-                why = "the statement after `.set(...)` is not the try/finally - an exception in between leaks the value"
-                continue
-            yields_in_body = any(isinstance(n, (ast.Yield, ast.YieldFrom)) for b in nxt.body for n in ast.walk(b))
-            yields_elsewhere = any(isinstance(n, (ast.Yield, ast.YieldFrom)) for n in ast.walk(cv.node)) and not yields_in_body
-            resets = [c for b in nxt.finalbody for c in calls_in(b)
-                      if isinstance(c.func, ast.Attribute) and c.func.attr == "reset"
-                      and len(c.args) == 1 and U(c.args[0]) == tok and U(c.func.value) == recv]
-            # reset must be unconditional in the finally block
-            uncond = any(isinstance(b, ast.Expr) and any(c is b.value for c in resets) for b in nxt.finalbody)
-            handlers_swallow = False
-            if not yields_in_body or yields_elsewhere:
-                why = "the yield is not inside the try body protected by the finally"
-            elif not resets or not uncond:
-                why = f"finally does not unconditionally call {recv}.reset({tok})"
-            elif i + 2 < len(body) and any(isinstance(n, (ast.Yield, ast.YieldFrom)) for b in body[i + 2:] for n in ast.walk(b)):
-                why = "a second yield after the try"
-            else:
-                ok = True
-                why = f"{tok} = {recv}.set(..); try: yield; finally: {recv}.reset({tok})"
-    ctx.check(ok, "C19.b", "pairing:_change_value", why, why, cv.where)
-    # all paths of _change_value that pass the set also pass the reset (path engine cross-check)
-    npaths = 0
-    allreset = True
-    for path in function_paths(cv.node):
-        seen_set = seen_reset = False
-        for step in path:
-            if step[0] == "stmt":
-                for c in calls_in(step[1]):
-                    if isinstance(c.func, ast.Attribute) and c.func.attr == "set":
-                        seen_set = True
-                    if isinstance(c.func, ast.Attribute) and c.func.attr == "reset" and seen_set:
-                        seen_reset = True
-        npaths += 1
-        if seen_set and not seen_reset:
-            allreset = False
-    ctx.check(allreset and npaths > 0, "C19.b", "paths:_change_value", f"all {npaths} structural paths reset after set",
-              "a structural path through _change_value sets the variable and never resets it", cv.where)
-    ef = C.methods.get("enable_free_arithmetics")
-    if ef is None:
-        raise AnalysisError("_Config.enable_free_arithmetics not found")
-    ctx.saw(ef)
-    good = False
-    for st in ast.walk(ef.node):
-        if isinstance(st, ast.With):
-            for it in st.items:
-                c = it.context_expr
-                if (isinstance(c, ast.Call) and U(c.func) == "self._change_value" and len(c.args) == 2
-                        and U(c.args[0]) in flag_names
-                        and U(c.args[1]) in [p for p in ef.params()]):
-                    if any(isinstance(n, ast.Yield) for b in st.body for n in ast.walk(b)):
-                        good = True
-    outside = [n for n in ast.walk(ef.node) if isinstance(n, ast.Yield)]
-    ctx.check(good and len(outside) == 1 and any(d.endswith("contextmanager") for d in ef.decorator_names()),
-              "C19.b", "wrapper:enable_free_arithmetics",
-              "contextmanager yielding once inside `with self._change_value(<flag>, value)`",
-              "enable_free_arithmetics does not yield exactly once inside `with self._change_value(<flag>, value)`",
-              ef.where)
+    check_scope_restore(ctx, "C19.b", m)
 
     # ---- C19.d users use `with` -------------------------------------------------------------
     ctx.rule("C19.d", "every call of enable_free_arithmetics is a with-item (the generator is always closed)", 1)
